@@ -87,12 +87,23 @@ def init_model(s):
     return [[Fr(i[r * C + c]) for c in range(C)] for r in range(R)]  # flat lists are row-major
 
 
-def cmp_lim(x, lim):
-    if x == lim:
-        return 0
-    if abs(x - lim) <= Fr(1, 10**9) * max(1, abs(lim)):
+def exactish(*xs):
+    """True if float arithmetic on these values (sums, differences) is exact: multiples of 2**-10 below 2**40."""
+    return all(Fr(x).denominator <= 1024 and 1024 % Fr(x).denominator == 0 and abs(x) < 2**40 for x in xs)
+
+
+def agree(f_says, x_says):
+    """A limit decision is only definitive when float64 evaluation and exact arithmetic agree."""
+    if f_says != x_says:
         raise Ambiguous()
-    return 1 if x > lim else -1
+    return f_says
+
+
+def cmp_lim(x, lim, exact_ok):
+    """Sign of x - lim for sums of several steps; near the limit only definitive if the arithmetic was exact."""
+    if not exact_ok and abs(x - lim) <= Fr(1, 10**9) * max(1, abs(lim)):
+        raise Ambiguous()
+    return (x > lim) - (x < lim)
 
 
 def pairs(wells, vols):
@@ -104,19 +115,37 @@ def pairs(wells, vols):
     return list(zip(W, V))
 
 
-def seq(M, s, pr, sign):
+class State:
+    """M: exact initial+added-removed per real well; F: the float64 value a sequential float evaluation holds."""
+
+    def __init__(self, L):
+        self.M = {n: init_model(s) for n, s in L.items()}
+        self.F = {n: [[float(x) for x in row] for row in m] for n, m in self.M.items()}
+
+    def book(self, n, r, c, signed):
+        self.M[n][r][c] += Fr(signed)
+        self.F[n][r][c] += float(signed)
+
+    def resync(self, obs, exact_too=False):
+        self.F = {n: [row[:] for row in obs[n]] for n in obs}
+        if exact_too:
+            self.M = {n: [[Fr(x) for x in row] for row in obs[n]] for n in obs}
+
+
+def seq(st, s, pr, sign):
     """Sequentially book (well, volume) pairs on labware s; returns 'ok' / 'over' / 'under' (stops at the offender)."""
-    m = M[s["name"]]
+    n = s["name"]
     for w, v in pr:
         r, c = widx(s, w)
-        new = m[r][c] + sign * Fr(v)
-        if v == 0 and (m[r][c] < Fr(s["min"]) and sign < 0):
+        cur = st.F[n][r][c]
+        new_f, new_x = cur + sign * float(v), Fr(cur) + sign * Fr(v)
+        if v == 0 and sign < 0 and cur < s["min"]:
             raise Ambiguous()  # removing nothing from a well that starts below min_volume: either outcome is fine
-        if sign > 0 and cmp_lim(new, Fr(s["max"])) > 0:
+        if sign > 0 and agree(new_f > s["max"], new_x > Fr(s["max"])):
             return "over"
-        if sign < 0 and cmp_lim(new, Fr(s["min"])) < 0:
+        if sign < 0 and agree(new_f < s["min"], new_x < Fr(s["min"])):
             return "under"
-        m[r][c] = new
+        st.book(n, r, c, sign * v)
     return "ok"
 
 
@@ -129,8 +158,8 @@ def triples(op):
     return list(zip(S, D, V))
 
 
-def expect(M, L, wl, op):
-    """Model step. Returns the expectation; books sequential operations on M (transfers are booked by the caller)."""
+def expect(st, L, wl, op):
+    """Model step. Returns the expectation; books sequential operations on st (an accepted transfer is booked by the caller)."""
     k = op["op"]
     if k in ("add", "remove", "aspirate", "dispense", "evo_aspirate", "evo_dispense"):
         s = L[op["lw"]]
@@ -141,19 +170,19 @@ def expect(M, L, wl, op):
         if k not in ("add", "remove") and any(v > wl["max_volume"] for _, v in pr):
             return {"out": "free", "touched": touched}
         sign = 1 if k in ("add", "dispense", "evo_dispense") else -1
-        return {"out": seq(M, s, pr, sign), "touched": touched}
+        return {"out": seq(st, s, pr, sign), "touched": touched}
     if k == "distribute":
         s, d = L[op["src"]], L[op["dst"]]
         W = flat_f(op["dw"])
         touched = {(s["name"], (0, op["col"]))} | {(d["name"], widx(d, w)) for w in W}
         if op["vol"] > wl["max_volume"]:
             return {"out": "error", "touched": touched}
-        total = Fr(op["vol"]) * len(W)
-        cur = M[s["name"]][0][op["col"]]
-        if cmp_lim(cur - total, Fr(s["min"])) < 0:
+        cur = st.F[s["name"]][0][op["col"]]
+        if agree(cur - float(op["vol"]) * len(W) < s["min"], Fr(cur) - Fr(op["vol"]) * len(W) < Fr(s["min"])):
             return {"out": "under", "touched": touched}
-        M[s["name"]][0][op["col"]] = cur - total
-        return {"out": seq(M, d, [(w, op["vol"]) for w in W], 1), "touched": touched}
+        st.M[s["name"]][0][op["col"]] -= Fr(op["vol"]) * len(W)
+        st.F[s["name"]][0][op["col"]] = cur - float(op["vol"]) * len(W)
+        return {"out": seq(st, d, [(w, op["vol"]) for w in W], 1), "touched": touched}
     if k == "transfer":
         s, d = L[op["src"]], L[op["dst"]]
         touched = {(s["name"], widx(s, w)) for w in flat_f(op["sw"])} | {(d["name"], widx(d, w)) for w in flat_f(op["dw"])}
@@ -162,19 +191,27 @@ def expect(M, L, wl, op):
             return {"out": "error", "touched": touched}
         if not wl["auto_split"] and any(v > wl["max_volume"] for _, _, v in tr):
             return {"out": "free", "touched": touched}
-        rem, add, net = {}, {}, {n: [row[:] for row in m] for n, m in M.items()}
+        ev = {}
         for sw, dw, v in tr:
-            a, b = (s["name"], widx(s, sw)), (d["name"], widx(d, dw))
-            rem[a] = rem.get(a, 0) + Fr(v)
-            add[b] = add.get(b, 0) + Fr(v)
-            net[a[0]][a[1][0]][a[1][1]] -= Fr(v)
-            net[b[0]][b[1][0]][b[1][1]] += Fr(v)
-        safe = all(cmp_lim(M[n][r][c] - x, Fr(L[n]["min"])) >= 0 for (n, (r, c)), x in rem.items() if x > 0)
-        safe = safe and all(cmp_lim(M[n][r][c] + x, Fr(L[n]["max"])) <= 0 for (n, (r, c)), x in add.items() if x > 0)
-        bad = False
-        for (n, (r, c)) in touched:
-            f, i = net[n][r][c], M[n][r][c]
-            bad = bad or cmp_lim(f, Fr(L[n]["max"])) > 0 or (f < i and cmp_lim(f, Fr(L[n]["min"])) < 0)
+            if v > 0:
+                ev.setdefault((s["name"], widx(s, sw)), []).append(-Fr(v))
+                ev.setdefault((d["name"], widx(d, dw)), []).append(Fr(v))
+        net = {n: [row[:] for row in m] for n, m in st.M.items()}
+        safe, bad = True, False
+        for (n, (r, c)), es in ev.items():
+            cur, mn, mx = Fr(st.F[n][r][c]), Fr(L[n]["min"]), Fr(L[n]["max"])
+            net[n][r][c] += sum(es)
+            ok = exactish(cur, *es) or (len(es) == 1 and abs(es[0]) < wl["max_volume"])  # one unsplit step is correctly rounded
+            if len(es) == 1 and not exactish(cur, *es):
+                f = st.F[n][r][c] + float(es[0])
+                agree(f > L[n]["max"], cur + es[0] > mx), agree(f < L[n]["min"], cur + es[0] < mn)
+            lo, hi, fin = cur + sum(e for e in es if e < 0), cur + sum(e for e in es if e > 0), cur + sum(es)
+            if any(e < 0 for e in es) and cmp_lim(lo, mn, ok) < 0:
+                safe = False
+            if any(e > 0 for e in es) and cmp_lim(hi, mx, ok) > 0:
+                safe = False
+            if cmp_lim(fin, mx, ok) > 0 or (fin < cur and cmp_lim(fin, mn, ok) < 0):
+                bad = True
         return {"out": "transfer", "touched": touched, "safe": safe, "bad": bad, "net": net}
     raise ValueError(k)
 
@@ -251,11 +288,11 @@ def run_case(case):
         L, LW, WL, owned = build(case)
     except Exception as e:  # noqa
         return [f"constructor raised {type(e).__name__}: {e}"], stats
-    M = {n: init_model(s) for n, s in L.items()}
+    st = State(L)
     fails = []
 
     def compare(obs, tag):
-        for n, m in M.items():
+        for n, m in st.M.items():
             for r, row in enumerate(m):
                 for c, x in enumerate(row):
                     if not close(x, obs[n][r][c]):
@@ -269,12 +306,12 @@ def run_case(case):
         tag = f"op#{i} {op['op']}"
         before = observe(LW)
         try:
-            ex = expect(M, L, case["wl"], op)
+            ex = expect(st, L, case["wl"], op)
         except Ambiguous:
             stats["ambiguous"] = True
             break
         dev = op.get("dev", "evo")
-        nrec, n_owned = len(WL[dev]), len(owned)
+        nrec = len(WL[dev])
         exc = None
         try:
             call(op, LW, WL, owned)
@@ -312,7 +349,7 @@ def run_case(case):
             if exc is None:
                 if ex["bad"]:
                     fails.append(f"{tag}: accepted although its net effect leaves a well beyond a limit")
-                M = ex["net"]
+                st.M = ex["net"]
             elif viol:
                 if ex["safe"]:
                     fails.append(f"{tag}: raised {type(exc).__name__} although every sub-step is within limits: {exc}")
@@ -349,9 +386,10 @@ def run_case(case):
             break
         # -- bookkeeping
         if out in ("free",) or (out == "transfer" and exc is not None):
-            M = {n: [[Fr(x) for x in row] for row in after[n]] for n in after}  # resync (checked by frame + records)
+            st.resync(after, exact_too=True)  # what such a call booked is pinned down by frame + records only
         else:
             compare(after, tag)
+            st.resync(after)
     return fails, stats
 
 
@@ -423,7 +461,8 @@ def gen_vols(rng, wells, hi, dy):
     return vals
 
 
-def gen_op(rng, L, M, wl, dy):
+def gen_op(rng, L, st, wl, dy):
+    M = st.M
     names = list(L)
     k = rng.choice(["add", "remove", "aspirate", "dispense", "transfer", "transfer", "transfer", "distribute", "distribute", "evo"])
     dev = rng.choice(["evo", "fluent"])
@@ -517,15 +556,16 @@ def gen_case(rng):
             L[t["name"]] = t
             break
     wl = {"max_volume": rng.choice([950, 950, 950, 200, 1000, 62.5]), "auto_split": rng.random() < 0.7}
-    M = {n: init_model(s) for n, s in L.items()}
+    st = State(L)
     ops = []
     for _ in range(rng.randint(1, 8)):
-        op = gen_op(rng, L, M, wl, dy)
+        op = gen_op(rng, L, st, wl, dy)
         ops.append(op)
         try:
-            ex = expect(M, L, wl, op)
+            ex = expect(st, L, wl, op)
             if ex["out"] == "transfer" and ex["safe"]:
-                M = ex["net"]
+                st.M = ex["net"]
+                st.F = {n: [[float(x) for x in row] for row in m] for n, m in st.M.items()}
         except Ambiguous:
             break
     return {"lw": list(L.values()), "wl": wl, "dyadic": dy, "ops": ops}
@@ -595,7 +635,7 @@ def main(argv):
         return 1 if fails else 0
     tier = argv[0] if argv else "quick"
     seed = int(argv[1]) if len(argv) > 1 else 0
-    budget, n_rand = (14, 6000) if tier == "quick" else (200, 150000)
+    budget, n_rand = (15, 4000) if tier == "quick" else (240, 60000)
     t0 = time.time()
     rng = random.Random(seed)
     seen, failures, samples, kinds = set(), [], [], {}
